@@ -23,6 +23,32 @@ pub fn std_spec(label: &str, enc: [Enc; 3], fee_rate: u16, protocol_fee_rate: u1
     }
 }
 
+/// Chained ranges P0 [-128,128) | P1 [128,320) | P2 [320,5696): two shared bounds, both inside tick array 0 (so a dynamic
+/// array 0 holds several initialized ticks that are initialised / de-initialised in every order), P2 straddles the array edge;
+/// no full-range position, so the price can leave all liquidity (zero-liquidity gaps).
+pub fn chain_spec(label: &str, enc: [Enc; 3], fee_rate: u16, protocol_fee_rate: u16) -> StdSpec {
+    StdSpec {
+        label: label.into(),
+        tick_spacing: 64,
+        fee_rate,
+        protocol_fee_rate,
+        sqrt_price: P0,
+        arrays: vec![(-1, enc[0]), (0, enc[1]), (1, enc[2])],
+        positions: vec![(-128, 128, true), (128, 320, false), (320, 5696, false)],
+        t22_a: None,
+        t22_b: None,
+    }
+}
+
+pub fn chain_roots() -> Vec<(&'static str, Vec<Op>)> {
+    let fund = vec![
+        Op::Inc { pos: 0, liq: BIG, v2: true },
+        Op::Inc { pos: 2, liq: BIG / 2, v2: false },
+        Op::Inc { pos: 1, liq: BIG / 4, v2: true },
+    ];
+    vec![("fresh", vec![]), ("funded", fund)]
+}
+
 /// Full-range-only pool (ts = 32768): one usable range.
 pub fn splash_spec(label: &str) -> StdSpec {
     StdSpec {
